@@ -5,7 +5,7 @@
 From Coq Require Import String List ZArith Bool.
 From Coq Require Import Ascii NArith.
 From PV Require Import Model_scsv Proofs_scsv Model_scsv_frame Proofs_scsv_frame Model_scsv_header Proofs_scsv_header.
-From PV Require Import Model_scsv_py Gen_scsv Inst_scsv Inst_scsv_save Proofs_scsv_faults.
+From PV Require Import Model_scsv_py Gen_scsv Inst_scsv Inst_scsv_save Inst_scsv_header Proofs_scsv_faults.
 Import ListNotations.
 Open Scope string_scope.
 
@@ -501,3 +501,23 @@ Example C16_fault_examples :
   save toyO (sch "," "-" [fld "a" "decimal" None]) [[CStr "x"]] = Err SCSV /\
   save toyO (sch "," "-" [fld "a" "float" None]) [[CFloat FNan]] = Err SCSV.
 Proof. exact fault_examples_proof. Qed.
+
+(* _yaml_quote (tie T): for every string the generated function is `yaml_quote`, the function C16_yaml_quote_roundtrip /
+   _exact / _utf8 are about *)
+Theorem C16_gen_yaml_quote_is_model : forall O s, gen__yaml_quote O (PStr s) = Ok (PStr (yaml_quote s)).
+Proof. exact gen_yaml_quote_eq. Qed.
+
+(* write_scsv_header as a whole (tie T): started on the strings `written` so far, the generated function appends the
+   fence, the lines of `header_lines` (comments, schema:, quoted delimiter / missing marker, per field the quoted name,
+   the type, the unit if present, the fill -- quoted when a string, str() otherwise) each with its line terminator,
+   and the closing fence; SCSVError for an invalid schema; comments None or a list of strings *)
+Theorem C16_gen_write_header_is_model : forall O p s co kv l units,
+  abs_schema p = Some s -> p = PDict kv -> dget kv "fields" = Some (PList l) -> raw_units l = Some units ->
+  fills_not_complex p ->
+  forall written,
+  gen_write_scsv_header O (PList written) p (comments_py co) =
+  match header_lines O (comments_of co) s units with
+  | Ok ls => Ok (PList (written ++ PStr fence_line :: map term ls ++ [PStr fence_line]))
+  | Err e => Err e
+  end.
+Proof. exact gen_write_header_eq. Qed.
